@@ -277,25 +277,34 @@ func (e *explorer) checkState(s *state) bool {
 		// sees nor leaves the lexer anywhere but where it is
 		{
 			c := pl
-			during := -1
+			wandered := ""
 			c.PeekAny(func(t lexer.Token) bool {
-				if during < 0 {
-					during = int(c.RawCursor())*1000 + idxOf(e.all, c.RawPeek())
+				if int(c.RawCursor()) != s.r || idxOf(e.all, c.RawPeek()) != s.r {
+					wandered = fmt.Sprintf("while the predicate looked at token %d: RawCursor %d, RawPeek token %d", t.Pos.Offset, c.RawCursor(), idxOf(e.all, c.RawPeek()))
 				}
 				return false
 			})
-			if during >= 0 && during != s.r*1000+s.r {
-				e.fail(s, " PeekAny(predicate that reads the lexer)", "PeekAny-mutates", fmt.Sprintf("raw cursor %d during the scan", s.r), fmt.Sprintf("cursor*1000+rawpeek = %d", during))
+			if wandered != "" {
+				e.fail(s, " PeekAny(predicate that reads the lexer)", "PeekAny-mutates", fmt.Sprintf("raw cursor %d throughout the scan", s.r), wandered)
 				ok = false
 			}
-			c2 := pl
-			func() {
-				defer func() { _ = recover() }()
-				c2.PeekAny(func(t lexer.Token) bool { panic("predicate gives up") })
-			}()
-			if observe(&c2, e.all) != observe(&pl, e.all) || int(c2.RawCursor()) != s.r {
-				e.fail(s, " PeekAny(panicking predicate)", "PeekAny-mutates", "", "")
-				ok = false
+			for _, giveUpAt := range []int{1, 2, 3} {
+				c2 := pl
+				calls := 0
+				func() {
+					defer func() { _ = recover() }()
+					c2.PeekAny(func(t lexer.Token) bool {
+						calls++
+						if calls == giveUpAt {
+							panic("predicate gives up")
+						}
+						return false
+					})
+				}()
+				if observe(&c2, e.all) != observe(&pl, e.all) || int(c2.RawCursor()) != s.r {
+					e.fail(s, fmt.Sprintf(" PeekAny(predicate that panics at its call #%d)", giveUpAt), "PeekAny-mutates", fmt.Sprint(observe(&pl, e.all)), fmt.Sprint(observe(&c2, e.all)))
+					ok = false
+				}
 			}
 		}
 		for i := 0; i <= m.n+1; i++ {
